@@ -5,6 +5,7 @@ Strtod/ScanLemmas.lean, Strtod/Extract.lean).
 import JanetModel.Strtod.ScanLemmas
 import JanetModel.Strtod.Extract
 import JanetModel.Strtod.Ldexp
+import JanetModel.Strtod.Approx
 
 namespace JanetModel.Props.C13
 open JanetModel.Strtod JanetModel.Gen.Strtod
@@ -194,30 +195,54 @@ theorem ldexp_exact_int (t : Nat) (ht0 : t ≠ 0) (ht : t < 2 ^ 53) :
     and long finite literals are returned as infinity. -/
 theorem mant_estimate_sound (x : BigNat) (hi : MantInv x) (hnz : ¬ (x.digits.length = 0 ∧ x.first = 0)) :
     2 ^ (x.digits.length * approxPerDigit + approxBias) ≤ x.val * 2 ^ 16 ∧
-    x.val * 2 ^ 16 < 2 ^ (x.digits.length * approxPerDigit + approxBias + 31) := by
-  have hapd : approxPerDigit = 31 := by decide
-  have hbias : approxBias = 16 := by decide
-  have hB : ∀ k, bigBase ^ k = 2 ^ (k * 31) := by
-    intro k
-    have : bigBase = 2 ^ 31 := by decide
-    rw [this, ← pow_mul, Nat.mul_comm]
-  have hall : AllLt (x.first :: x.digits) := AllLt_cons.2 ⟨hi.first_lt, hi.allLt⟩
-  have hup := digitsVal_lt hall
-  rw [← val_def, hB] at hup
-  have hlo : 2 ^ (x.digits.length * 31) ≤ x.val := by
-    cases hd : x.digits with
-    | nil => simpa using val_pos_of_nonzero x hi hnz
-    | cons d r =>
-      have := topnz_val_ge (ds := x.first :: x.digits) (by simp) (by rw [hd, TopNZ_cons_cons, ← hd]; exact hi.topnz)
-      rw [← val_def, hB, hd] at this
-      simpa using this
-  rw [hapd, hbias]
+    x.val * 2 ^ 16 < 2 ^ (x.digits.length * approxPerDigit + approxBias + 31) :=
+  mant_estimate x hi hnz
+
+/-- `convert` takes its short-circuits exactly on `exp2Approx` (the quantity the next theorems are about) -/
+theorem convert_shortcircuits (neg : Bool) (mant : BigNat) (base : Nat) (ex : Int)
+    (hnz : ¬ (mant.digits.length = 0 ∧ mant.first = 0)) :
+    (exp2Approx mant base ex > hugeThresh → convert neg mant base ex = withSign neg infBits) ∧
+    (¬ exp2Approx mant base ex > hugeThresh → exp2Approx mant base ex < tinyThresh →
+      convert neg mant base ex = withSign neg 0) := by
   constructor
-  · rw [pow_add]; exact Nat.mul_le_mul_right _ hlo
-  · have e : x.digits.length * 31 + 16 + 31 = (x.digits.length + 1) * 31 + 16 := by ring
-    rw [e, pow_add]
-    simp only [List.length_cons] at hup
-    exact Nat.mul_lt_mul_of_pos_right hup (by positivity)
+  · intro h
+    unfold exp2Approx at h
+    unfold convert
+    simp only
+    rw [if_neg hnz, if_pos h]
+  · intro h1 h2
+    unfold exp2Approx at h1 h2
+    unfold convert
+    simp only
+    rw [if_neg hnz, if_neg h1, if_pos h2]
+
+/-- ★ `huge_shortcircuit_sound`: whenever `convert` returns ±inf early (`exp2_approx > 1176`, including the double-precision
+    term `floor(log2(base)·exponent)` with its two roundings), the exact value `mant·base^ex` is ≥ 2^1024 > DBL_MAX, so ±inf
+    is one of its two adjacent doubles.  For all mantissas and all |exponent| < 2^31 (the scanner cannot produce larger
+    ones), radix 2..36.  Uses the named assumption `Log2Within1Ulp base` (libm's log2 within one ulp; the table itself is
+    regenerated and its shape kernel-checked: `log2Table_shape`). -/
+theorem huge_shortcircuit_sound (mant : BigNat) (base a : Nat) (hi : MantInv mant)
+    (hnz : ¬ (mant.digits.length = 0 ∧ mant.first = 0)) (hb2 : 2 ≤ base) (hb : base ≤ 36) (ha : a < 2 ^ 31)
+    (hL : Log2Within1Ulp base) :
+    (exp2Approx mant base (a : Int) > hugeThresh → 2 ^ 1024 ≤ mant.val * base ^ a) ∧
+    (0 < a → exp2Approx mant base (-(a : Int)) > hugeThresh → 2 ^ 1024 * base ^ a ≤ mant.val) :=
+  ⟨huge_sound_pos mant base a hi hnz hb2 hb ha hL, fun ha0 => huge_sound_neg mant base a hi hnz hb2 hb ha0 ha hL⟩
+
+/-- kernel-checked part of the libm assumption: every regenerated table entry L_b satisfies
+    ⌊65536·L_b⌋ − 1 ≤ 65536·log2(b) ≤ ⌊65536·L_b⌋ + 2, i.e. |L_b − log2 b| < 2^−14 (checked with b^65536 against powers of two).
+    The remaining, unchecked part of `Log2Within1Ulp` is the step from 2^−14 to one ulp (2^−52..2^−50). -/
+theorem log2_table_coarse_check : ∀ b : Fin 37, 2 ≤ b.val →
+    2 ^ ((log2Entry b.val).1 * 65536 / 2 ^ (-(log2Entry b.val).2).toNat - 1) ≤ b.val ^ 65536 ∧
+    b.val ^ 65536 ≤ 2 ^ ((log2Entry b.val).1 * 65536 / 2 ^ (-(log2Entry b.val).2).toNat + 2) := by decide +kernel
+
+/-- ★ `tiny_shortcircuit_sound`: `convert` returns ±0 early (`exp2_approx < −1175`) only for negative exponents, and then
+    0 < mant / base^a < 2^−1074: the exact value lies strictly below the smallest subnormal, whose neighbours are 0 and 2^−1074. -/
+theorem tiny_shortcircuit_sound (mant : BigNat) (base a : Nat) (hi : MantInv mant)
+    (hnz : ¬ (mant.digits.length = 0 ∧ mant.first = 0)) (hb2 : 2 ≤ base) (hb : base ≤ 36) (ha : a < 2 ^ 31)
+    (hL : Log2Within1Ulp base) :
+    ¬ (exp2Approx mant base (a : Int) < tinyThresh) ∧
+    (0 < a → exp2Approx mant base (-(a : Int)) < tinyThresh → mant.val * 2 ^ 1074 < base ^ a) :=
+  ⟨tiny_needs_negative mant base a, fun ha0 => tiny_sound_neg mant base a hi hnz hb2 hb ha0 ha hL⟩
 
 /-! ### the digit table -/
 
